@@ -166,3 +166,59 @@ Fixpoint typedb (fuel : nat) (T : tables) (o : obj) : bool :=
   end.
 
 End Typed.
+
+(* ---------------------------------------------------------------- diagnostics (which clause, which member)
+   used by the check to direct the search for a failing input when rt_wf is false *)
+Definition cls_diag (T : tables) (k : cls) : list (string * string) :=
+  let c := c_name k in
+  let n := cfuel T in
+  let EA := exp_attrs_of n T c in
+  let BA := bld_attrs_of n T c in
+  let EK := exp_kids_of n T c in
+  let BK := bld_kids_of n T c in
+  let HC := hc_of n T c in
+  match init_lits T c with
+  | None => [("constructor-chain-unresolved", c)]
+  | Some dfl =>
+    let keys := map fst dfl in
+    ((if nodupb keys then [] else [("duplicate-field", c)])
+     ++ (if nodupb (map ea_xml EA) && nodupb (map ea_py EA) then [] else [("duplicate-exported-attribute", c)])
+     ++ (if nodupb (map ba_xml BA) && nodupb (map ba_key BA) && nodupb (map ba_py BA) then [] else [("duplicate-built-attribute", c)])
+     ++ flat_map (fun a =>
+          (if mem (ea_py a) keys then [] else [("exported-attribute-not-a-field", ea_py a)])
+          ++ match find_ba (ea_py a) BA with
+             | Some b => (if String.eqb (ba_xml b) (ea_xml a) then [] else [("attribute-xml-name-differs", ea_py a)])
+                         ++ (if akind_eqb (ba_kind b) (ea_kind a) then [] else [("attribute-format-vs-parser-kind", ea_py a)])
+             | None => [("attribute-exported-but-not-built", ea_py a)] end
+          ++ match lookup (ea_py a) dfl with
+             | Some d => (if lit_kind_ok (ea_kind a) d then [] else [("attribute-default-kind", ea_py a)])
+                         ++ match ea_guard a with
+                            | GNotNone => []
+                            | GNe g => if lit_agree (ea_kind a) (lit_of_dflt g) d then [] else [("attribute-guard-vs-default", ea_py a)]
+                            end
+             | None => [] end) EA
+     ++ flat_map (fun b => match find_ea (ba_py b) EA with Some _ => [] | None => [("attribute-built-but-not-exported", ba_py b)] end) BA
+     ++ (if nodupb (map ek_tag EK) && nodupb (map ek_py EK) then [] else [("duplicate-exported-child", c)])
+     ++ (if nodupb (map bk_tag BK) then [] else [("duplicate-built-child-tag", c)])
+     ++ flat_map (fun e =>
+          (if mem (ek_py e) keys then [] else [("exported-child-not-a-field", ek_py e)])
+          ++ (if mem (ek_py e) HC then [] else [("child-missing-from-has-content", ek_py e)])
+          ++ (if mem (ek_py e) (map ea_py EA) then [("member-both-attribute-and-child", ek_py e)] else [])
+          ++ match find_branch (ek_tag e) BK with
+             | Some b => (if String.eqb (bk_py b) (ek_py e) then [] else [("child-built-into-other-member", ek_py e)])
+                         ++ (if ckind_eqb (bk_kind b) (ek_kind e) then [] else [("child-single-vs-list", ek_py e)])
+                         ++ match ek_kind e with
+                            | CObj | CObjList => match find_cls T (bk_cls b) with Some _ => [] | None => [("child-class-unknown", ek_py e)] end
+                            | _ => [] end
+             | None => [("child-exported-but-not-built", ek_py e)] end
+          ++ match lookup (ek_py e) dfl, ek_kind e with
+             | Some LNone, (CObj | CText) | Some LObjs, CObjList | Some LRaw, CAny => []
+             | _, _ => [("child-default", ek_py e)] end) EK
+     ++ flat_map (fun b => match find_ek (bk_py b) EK with Some _ => [] | None => [("child-built-but-not-exported", bk_py b)] end) BK
+     ++ flat_map (fun nv => if mem (fst nv) (map ea_py EA) || mem (fst nv) (map ek_py EK)
+                               || match snd nv with LNone => true | _ => false end
+                            then [] else [("field-neither-exported-nor-default-none", fst nv)]) dfl)%list
+  end.
+
+Definition rt_diag (T : tables) : list (string * list (string * string)) :=
+  flat_map (fun k => if cls_wf T k then [] else [(c_name k, cls_diag T k)]) T.
